@@ -137,7 +137,7 @@ class ValueOrListConverter(UnionConverter):
         if not isinstance(val, ValueOrList):
             return into_data(val)
         return t.cast(ValueOrList[t.Any], val).map(
-            lambda v: into_data(v, self.ty)
+            lambda v: self.converters[0].into_data(v)
         )._inner
 
 
